@@ -1,3 +1,7 @@
+import Larking.Gen.Skel
+import Larking.Expected.C05
+import Larking.Gen.Dispatch
+import Larking.Model.Dispatch
 import Larking.Gen.Codes
 import Larking.Gen.Missing
 import Larking.Lemmas.Status
@@ -145,6 +149,102 @@ example : encodeGrpcMessage Gen.needsEsc [0x35, 0x30, 0x25, 0x20, 0xc3, 0xa8, 0x
     = [0x35, 0x30, 0x25, 0x32, 0x35, 0x20, 0x25, 0x63, 0x33, 0x25, 0x61, 0x38, 0x73] := by decide
 example : textModeOutput true [[1, 2], [3, 4]] = [65, 81, 73, 68, 66, 65, 61, 61] := by decide
 
+/-! ### which serving function a request enters (`Mux.ServeHTTP`, `isWebRequest`) -/
+/-- the functions modelled in `Model/Dispatch` are the ones the model was written against. -/
+theorem skeleton_unchanged :
+    (Gen.Skel.conds_isWebRequest,
+     Gen.Skel.stmts_isWebRequest,
+     Gen.Skel.conds_Mux_ServeHTTP,
+     Gen.Skel.stmts_Mux_ServeHTTP,
+     Gen.Skel.conds_Mux_serveGRPCWeb,
+     Gen.Skel.stmts_Mux_serveGRPCWeb)
+  = (Expected.C05.conds_isWebRequest,
+     Expected.C05.stmts_isWebRequest,
+     Expected.C05.conds_Mux_ServeHTTP,
+     Expected.C05.stmts_Mux_ServeHTTP,
+     Expected.C05.conds_Mux_serveGRPCWeb,
+     Expected.C05.stmts_Mux_serveGRPCWeb) := rfl
+
+open Larking.Dispatch in
+/-- the protocol tests of `Mux.ServeHTTP` as regenerated from the source, in source order. -/
+def protoTests : List Larking.Dispatch.Test := ofGen Gen.Dispatch.tests
+
+open Larking.Dispatch in
+theorem protocol_tests_as_modelled :
+    protoTests = [⟨grpcWeb, false, .web⟩, ⟨grpcB, true, .grpc⟩] := by decide
+
+open Larking.Dispatch in
+/-- **every gRPC-web request reaches the gRPC-web path**, over HTTP/1.1 and over HTTP/2 alike
+(its content types also begin with "application/grpc"). -/
+theorem web_reaches_web (pm : Nat) (ct : Bytes) (h : hasPrefix grpcWeb ct = true) :
+    dispatch protoTests pm ct = .web := by
+  rw [protocol_tests_as_modelled]
+  simp [dispatch, h]
+
+open Larking.Dispatch in
+/-- a request enters the gRPC path exactly when it is HTTP/2 with an "application/grpc" content
+type that is not a gRPC-web one; … -/
+theorem grpc_iff (pm : Nat) (ct : Bytes) :
+    dispatch protoTests pm ct = .grpc ↔ pm = 2 ∧ hasPrefix grpcB ct = true ∧ hasPrefix grpcWeb ct = false := by
+  rw [protocol_tests_as_modelled]
+  cases hw : hasPrefix grpcWeb ct <;> cases hg : hasPrefix grpcB ct <;> by_cases hp : pm = 2 <;>
+    simp [dispatch, hw, hg, hp]
+
+open Larking.Dispatch in
+/-- … and everything else is transcoded (`serveHTTP`): no request is dropped by the dispatch. -/
+theorem otherwise_transcoded (pm : Nat) (ct : Bytes) :
+    dispatch protoTests pm ct = .http ↔ hasPrefix grpcWeb ct = false ∧ ¬ (pm = 2 ∧ hasPrefix grpcB ct = true) := by
+  rw [protocol_tests_as_modelled]
+  cases hw : hasPrefix grpcWeb ct <;> cases hg : hasPrefix grpcB ct <;> by_cases hp : pm = 2 <;>
+    simp [dispatch, hw, hg, hp]
+
+open Larking.Dispatch in
+/-- contrast — the test order before fix `13c76b9`: a gRPC-web request over HTTP/2 entered the gRPC path. -/
+theorem grpc_test_first_misroutes_web :
+    dispatch [⟨grpcB, true, .grpc⟩, ⟨grpcWeb, false, .web⟩] 2 (grpcWeb ++ [43, 112, 114, 111, 116, 111]) = .grpc := by decide
+
+open Larking.Dispatch in
+/-- `isWebRequest`: "<type>+<codec>" with type gRPC-web or gRPC-web-text, POST only; without a
+codec the codec is "proto" (the codec is everything after the FIRST '+'). -/
+theorem web_request_codec (enc : Bytes) :
+    isWebRequest (grpcWeb ++ 43 :: enc) postB = some (grpcWeb, enc) ∧
+    isWebRequest (grpcWebText ++ 43 :: enc) postB = some (grpcWebText, enc) ∧
+    isWebRequest grpcWeb postB = some (grpcWeb, protoB) ∧
+    isWebRequest grpcWebText postB = some (grpcWebText, protoB) := by
+  have hcut : ∀ (pre : Bytes), (∀ b ∈ pre, b ≠ 43) → cutPlus (pre ++ 43 :: enc) = (pre, some enc) := by
+    intro pre
+    induction pre with
+    | nil => intro _; simp [cutPlus]
+    | cons c cs ih =>
+      intro h
+      have hc : (c == 43) = false := by simpa using h c (by simp)
+      simp [cutPlus, hc, ih (fun b hb => h b (by simp [hb]))]
+  refine ⟨?_, ?_, by decide, by decide⟩
+  · have h1 := hcut grpcWeb (by decide)
+    have hp : hasPrefix grpcWeb (grpcWeb ++ 43 :: enc) = true := by simp [grpcWeb, hasPrefix]
+    simp [isWebRequest, hp, h1]
+  · have h1 := hcut grpcWebText (by decide)
+    have hp : hasPrefix grpcWeb (grpcWebText ++ 43 :: enc) = true := by simp [grpcWeb, grpcWebText, hasPrefix]
+    simp [isWebRequest, hp, h1]
+
+open Larking.Dispatch in
+/-- anything but POST is not a gRPC-web request. -/
+theorem web_request_post_only (ct method : Bytes) (h : method ≠ postB) : isWebRequest ct method = none := by
+  have : (method != postB) = true := by simpa using h
+  simp [isWebRequest, this]
+
+open Larking.Dispatch in
+/-- one trailing slash is dropped in front of the router, a missing leading one is supplied. -/
+theorem norm_path (s : Bytes) :
+    normPath (47 :: s ++ [47]) = 47 :: s ∧
+    (∀ c cs, s = c :: cs → c ≠ 47 → normPath s = normPath (47 :: s)) := by
+  constructor
+  · simp [normPath, hasPrefix]
+  · intro c cs hs hc
+    subst hs
+    have : (47 == c) = false := by simpa using (fun e => hc e.symm)
+    simp [normPath, hasPrefix, this]
+
 end Larking.Props.C05
 
 #print axioms Larking.Props.C05.translator_complete
@@ -160,3 +260,12 @@ end Larking.Props.C05
 #print axioms Larking.Props.C05.ws_close_frame_fits
 #print axioms Larking.Props.C05.ws_close_reason_is_prefix
 #print axioms Larking.Props.C05.cut_inside_a_rune_without_the_fix
+#print axioms Larking.Props.C05.protocol_tests_as_modelled
+#print axioms Larking.Props.C05.web_reaches_web
+#print axioms Larking.Props.C05.grpc_iff
+#print axioms Larking.Props.C05.otherwise_transcoded
+#print axioms Larking.Props.C05.grpc_test_first_misroutes_web
+#print axioms Larking.Props.C05.web_request_codec
+#print axioms Larking.Props.C05.web_request_post_only
+#print axioms Larking.Props.C05.norm_path
+#print axioms Larking.Props.C05.skeleton_unchanged
